@@ -22,26 +22,29 @@ META = dict(
                "must match the model (drift).",
     level_note="Single fault per apply(); a fault is OSError(EIO) raised instead of the call (no partial effect of the "
                "failing call itself); rollback's own renames are not failed. Faults are injected at os.rename, "
-               "breezy.transform.delete_any (Rust) and osutils.delete_any as called during apply(); the inventory / index "
-               "write itself is not a fault point. Tree of 4 entries, single-letter names. Trusted: TLC, JSON bridge, "
+               "breezy.transform.delete_any (Rust) and osutils.delete_any as called during apply(), plus the "
+               "metadata update (tree.apply_inventory_delta / tree._apply_index_changes raising on entry) as one more fault point. Tree of 4 entries, single-letter names. Trusted: TLC, JSON bridge, "
                "dulwich / bzrformats as executed.",
 )
 
 WORLD = "CONSTANTS\n  Tids <- GenTids\n  Tree <- GenTree\n  NameRank <- GenRank\n"
 SAFE = ("NotStuck", "RollbackExact", "Conformant")
-ALL = SAFE + ("AllOrNothing", "MetaConsistent", "DeletionFailureNewMeta")
+ALL = SAFE + ("AllOrNothing", "MetaConsistent", "DeletionFailureNewMeta", "MetaFailureRollsBack")
+SIG_META = "metadata-update-failure-not-rolled-back:metadata-update-outside-try-block:%s"
 SIG_KNOWN = "old-metadata-after-deletion-failure:apply_deletions-before-metadata-update:%s"
 SIG_GIT_STALE = "stale-index-keys-under-moved-directory:git-_generate_index_changes:untouched-children"
 
 
-def gen_cfg(maxchanged, invfirst, invariants, focus=None):
-    return ("SPECIFICATION Spec\n" + WORLD + "  Cases <- GenCases\n  MaxK = 40\n  InventoryFirst = %s\n  MaxChanged = %d\n"
-            "  Focus %s\n" % ("TRUE" if invfirst else "FALSE", maxchanged,
+def gen_cfg(maxchanged, invfirst, invariants, focus=None, intry=False):
+    return ("SPECIFICATION Spec\n" + WORLD + "  Cases <- GenCases\n  MaxK = 40\n  InventoryFirst = %s\n  MetaInTry = %s\n"
+            "  MaxChanged = %d\n  Focus %s\n" % ("TRUE" if invfirst else "FALSE", "TRUE" if intry else "FALSE", maxchanged,
                               "= {%s}" % ", ".join('"%s"' % t for t in focus) if focus else "<- GenTids")
             + "".join("INVARIANT %s\n" % i for i in invariants))
 
 
-TRACE_CFG = "SPECIFICATION Spec\n" + WORLD + "  Cases = {}\n  MaxK = 0\n  InventoryFirst = FALSE\n"
+TRACE_CFG = "SPECIFICATION Spec\n" + WORLD + "  Cases = {}\n  MaxK = 0\n  InventoryFirst = FALSE\n  MetaInTry = FALSE\n"
+META_K = 99                                   # Transform.tla!MetaK: "the metadata update itself raises"
+META_METHOD = {"bzr": "apply_inventory_delta", "git": "_apply_index_changes"}
 
 
 def build_transform(tt, m, tree, flavour):
@@ -93,7 +96,7 @@ def run_once(case, fl, k, dest):
     inj = None
     try:
         build_transform(tt, case["m"], TREE, fl)
-        with tc.Inject(k, p) as inj:
+        with tc.Inject(0 if k == META_K else k, p, wt, META_METHOD[fl], k == META_K) as inj:
             try:
                 tt.apply()
             except Exception as e:
@@ -105,7 +108,19 @@ def run_once(case, fl, k, dest):
             fexc = e
     left = tc.leftovers(p, fl)
     obs = {"disk": tc.disk_obs(p), "ver": tc.ver_obs(p), "left": bool(left), "phase": inj.fault[0] if inj.fault else "none",
-           "nops": inj.n}
+           "nops": inj.n, "reusable": True}
+    if exc is not None:                 # can a further (empty) transform be built and applied?
+        tt2 = None
+        try:
+            tt2 = WorkingTree.open(p).transform()
+            tt2.apply()
+        except Exception as e:
+            obs["reusable"] = False
+            if tt2 is not None:
+                try:
+                    tt2.finalize()
+                except Exception:
+                    pass
     info = {"raised": type(exc).__name__ if exc else None, "finalize_raised": type(fexc).__name__ if fexc else None,
             "leftover": left, "failing_call": list(inj.fault) if inj.fault else None, "rolled_back": inj.rolled_back,
             "calls": [list(x) for x in inj.log]}
@@ -136,12 +151,19 @@ def replay_chunk(sub, chunk):
             k += 1
             if k > total:
                 break
+        if total is not None and k > total:             # one more fault point: the metadata update itself raises
+            obs, info = run_once(case, fl, META_K, dest)
+            if not info["raised"]:
+                sub.drift("a failing metadata update did not make apply() raise", {"m": case["m"], "flavour": fl, "info": info})
+            rows.append({"ci": ci, "fl": fl, "k": META_K, "obs": obs, "info": info})
+            sub.count(1)
+            sub.nontrivial((ci, fl, META_K))
         if ci % 97 == 0 and fl == "bzr":
             sub.sample({"transform": {a: b for a, b in case["m"].items() if a != "exec"}, "calls_per_phase": case["w"]["n"],
                         "flavour": fl, "fault_indices": list(range(total + 1))})
 
 
-CASES, TREE, BASES, ORDER = [], {}, {}, {}
+CASES, TREE, BASES, ORDER, INTRY = [], {}, {}, {}, {}
 
 
 def mkey(m):
@@ -149,9 +171,10 @@ def mkey(m):
 
 
 def detect_order(ctx):
-    """Which order does THIS tree implement, per flavour?  Probe: delete file a, fail the first delete_any of a pending
-    deletion; the versioning a re-opened tree reports says whether the metadata update came before (True, the order of
-    Transform.tla with InventoryFirst = TRUE) or after (False) the deletions."""
+    """Which variant does THIS tree implement, per flavour -> (InventoryFirst, MetaInTry)?  Probe: delete file a, fail the
+    first delete_any of a pending deletion; the versioning a re-opened tree reports says whether the metadata update came
+    before (True, Transform.tla with InventoryFirst = TRUE) or after (False) the deletions.  Then let the metadata update
+    itself fail: is the file back (MetaInTry)?"""
     tids = sorted(TREE) + ["N1", "N2"]
     none = {t: "none" for t in tids}
     m = {"name": dict(none), "parent": dict(none), "contents": dict(none), "exec": dict(none),
@@ -160,17 +183,24 @@ def detect_order(ctx):
     out = {}
     for fl in tc.FLAVOURS:
         obs, info = run_once({"m": m}, fl, 0, dest)
-        ks = [i + 1 for i, c in enumerate(info["calls"]) if c[0] == "pending-delete"]
-        if info["raised"] or not ks:
-            ctx.machinery("order probe: deleting a file makes no delete_any call during apply() on the %s tree (%s)" % (fl, info))
+        counted = [c for c in info["calls"] if c[0] != "metadata-update"]
+        ks = [i + 1 for i, c in enumerate(counted) if c[0] == "pending-delete"]
+        if info["raised"] or not ks or len(counted) == len(info["calls"]):
+            ctx.machinery("order probe: deleting a file makes no delete_any / no %s call during apply() on the %s tree (%s)" % (
+                META_METHOD[fl], fl, info))
         obs, info = run_once({"m": m}, fl, ks[0], dest)
-        out[fl] = ["a"] not in [e["path"] for e in obs["ver"]]
+        first = ["a"] not in [e["path"] for e in obs["ver"]]
+        # ... and is a failing metadata update rolled back (the file a is back in place)?
+        obs, info = run_once({"m": m}, fl, META_K, dest)
+        out[fl] = (first, ["a"] in [e["path"] for e in obs["disk"]])
     return out
 
 
 def signature(row, verdict):
     o, fl = row["obs"], row["fl"]
     sh = verdict["shape"]
+    if o["phase"] == "metadata" and sh["disk"] == "post" and not INTRY.get(fl, True):
+        return (SIG_META if ORDER.get(fl) else SIG_KNOWN) % fl
     stale = fl == "git" and sh["disk"] == "post" and "stale-children" in sh["ver"]
     if o["phase"] == "deletion" and sh["disk"] == "post" and "pre" in sh["ver"] and "post" not in sh["ver"] \
             and not (stale and ORDER.get(fl)):          # (on a metadata-first git tree old keys = the stale-children deviation)
@@ -193,10 +223,13 @@ def run(ctx):
         ctx.machinery("TransformGen exported no transforms")
     for fl in tc.FLAVOURS:
         BASES[fl] = tc.make_base(ctx.workdir, fl, TREE)
-    order = detect_order(ctx)
+    variant = detect_order(ctx)
+    order = {fl: v[0] for fl, v in variant.items()}
     ORDER.update(order)
+    INTRY.update({fl: v[1] for fl, v in variant.items()})
     ctx.cov["implementation_order"] = {fl: "metadata-update-then-deletions" if v else "deletions-then-metadata-update"
                                        for fl, v in order.items()}
+    ctx.cov["metadata_update_failure_rolled_back"] = dict(INTRY)
     # ... and the deletion clause does not for the order deletions-then-metadata (InventoryFirst = FALSE): TLC's
     # counter-example must reproduce, at the same fault index, on every flavour that implements that order
     cex_case = st = None
@@ -211,7 +244,11 @@ def run(ctx):
         if cex_case is None:
             ctx.machinery("TLC's counter-example transform is not among the exported cases")
     # the order metadata-update-then-deletions (InventoryFirst = TRUE) satisfies every clause
-    tlc.check(ctx, "TransformGen", cfg_text=gen_cfg(small if ctx.quick else mc, True, ALL), label="MC metadata-first", timeout=840)
+    tlc.check(ctx, "TransformGen", cfg_text=gen_cfg(small if ctx.quick else mc, True, ALL, intry=True),
+              label="MC metadata-first, inside try", timeout=840)
+    # ... but not when the metadata update sits outside the try block: its own failure is then not rolled back
+    tlc.check(ctx, "TransformGen", cfg_text=gen_cfg(1, True, ("MetaFailureRollsBack",), ("A",), intry=False),
+              expect_violation="MetaFailureRollsBack", label="counter-example metadata update outside try")
     for w, focus in (("WitnessRollbackNested", ("A", "B")), ("WitnessDeletionFailure", ("A",)), ("WitnessRider", ("A", "N1"))):
         tlc.check(ctx, "TransformGen", cfg_text=gen_cfg(2, False, (w,), focus), expect_violation=w, label="witness " + w)
     idx = list(range(len(CASES)))
@@ -228,7 +265,7 @@ def run(ctx):
     ctx.cov["runs_by_phase"] = {}
     for r in rows:
         ctx.cov["runs_by_phase"][r["obs"]["phase"]] = ctx.cov["runs_by_phase"].get(r["obs"]["phase"], 0) + 1
-    for need in ("removal", "insertion", "deletion", "cleanup", "none"):
+    for need in ("removal", "insertion", "deletion", "cleanup", "metadata", "none"):
         if not ctx.cov["runs_by_phase"].get(need):
             ctx.machinery("no real execution with a fault in phase %r" % need)
     slim = [{"i": i, "w": CASES[r["ci"]]["w"], "fl": r["fl"], "k": r["k"], "obs": r["obs"]} for i, r in enumerate(rows)]
@@ -252,6 +289,10 @@ def run(ctx):
             ctx.drift("TLC's counter-example for DeletionFailureNewMeta (deletions before the metadata update) did not "
                       "reproduce on a flavour that implements that order: %s" % sorted(want - got),
                       ctx.cov["counterexample_as_coded"])
+        metas = {sig for sig, _, rep in ctx.violations if rep["k"] == META_K}
+        for fl in tc.FLAVOURS:
+            if order[fl] and not INTRY[fl] and SIG_META % fl not in metas:
+                ctx.drift("the %s flavour was probed as not rolling back a failing metadata update, but no run shows it" % fl)
         both = {SIG_KNOWN % fl for fl in tc.FLAVOURS if order[fl]} & got
         if both:
             ctx.drift("a flavour probed as metadata-update-first shows the counter-example of the other order: %s" % sorted(both),
@@ -259,7 +300,8 @@ def run(ctx):
     ctx.rule("transforms = every conflict-free combination of <= %d changed entries (delete / move / replace by file / "
              "replace by directory / new file / new directory) over the tree {a, b, d/, d/a} enumerated by TLC "
              "(TransformGen.tla); each runs with no fault and with a fault at every file-system call of apply(), on a "
-             "bzr 2a and a git working tree; non-trivial = runs with an injected fault" % mc)
+             "bzr 2a and a git working tree, plus once with the metadata update (apply_inventory_delta / "
+             "_apply_index_changes) itself raising; non-trivial = runs with an injected fault" % mc)
     ctx.assume("fault = OSError(EIO) raised instead of the k-th os.rename / delete_any call made during apply(); one fault per run")
 
 
